@@ -12,7 +12,7 @@ SLACK_MS = 6000
 
 def settings(rng, m):
     return {"iterations": rng.choice([0, 1, 7, 50, 300, 300, -1]), "duration_ms": rng.choice([0, 40, 300, 1200]),
-            "runs": rng.choice([1, 2, 4, 16, 40, -1, 0, 0, -2]), "starts": rng.choice([0, 1, 3]),
+            "runs": rng.choice([1, 2, 4, 16, 40, -1, 0, 0, -2]), "starts": rng.choice([0, 1, 3, 3, -1, -2]),
             "det": rng.choice([0, 1]), "repeat": 1, "snap": 0, "cancel_ms": rng.choice([-1, -1, 0, 15, 150])}
 
 
@@ -42,6 +42,44 @@ def check_runs(chk, runs, cases):
             bad += 1
             chk.violation({"kind": "input", "what": fails[0], "failures": fails, "settings": st, "model": byid[cid]["model"]})
     return bad
+
+
+def wide_unit_stage(chk, tier, seed):
+    """a deadline / a cancellation in the middle of ONE best-move search: a pickup that precedes four deliveries and a vehicle
+    that already carries some forty single stops - the moves of one stop order on that route number over a million, one search
+    takes far longer than the duration given (defect repaired in /repo: the search now looks at its context)"""
+    import random
+    rng = random.Random(seed * 131 + 1515)
+    n = 2 if tier == "quick" else 12
+    blocks, meta = [], {}
+    for i in range(n):
+        k = rng.randint(38, 44)
+        stops = [{"id": "s%d" % j, "location": {"lon": 7.0 + 0.01 * j, "lat": 51.0 + 0.003 * (j % 7)}} for j in range(k)]
+        stops.append({"id": "p", "location": {"lon": 7.2, "lat": 51.1}, "precedes": ["d1", "d2", "d3", "d4"]})
+        stops += [{"id": "d%d" % j, "location": {"lon": 7.2 + 0.01 * j, "lat": 51.1}} for j in range(1, 5)]
+        inp = {"stops": stops, "vehicles": [{"id": "v0", "speed": 20, "start_location": {"lon": 7.0, "lat": 51.0}}]}
+        st = {"iterations": -1, "duration_ms": 1000, "runs": 1 if i % 2 == 0 else 2, "starts": 0, "det": i % 2, "repeat": 1, "snap": 0,
+              "cancel_ms": -1 if i % 2 == 0 else 300}
+        blocks.append(S.raw_block("w%d" % i, inp, st))
+        meta["w%d" % i] = st
+    runs, rc, err = S.run_solve_raw(blocks, "c15_wide_" + tier, timeout=3000)
+    chk.ob("wide unit: harness solve exits normally", rc == 0, err[-300:])
+    bad = 0
+    for (cid, rep), r in sorted(runs.items()):
+        st = meta[cid]
+        d = r["done"]
+        limit = st["duration_ms"] if st["cancel_ms"] < 0 else min(st["duration_ms"], st["cancel_ms"])
+        fails = [f for f in r["flags"] if f.startswith(("PANIC", "HANG"))]
+        if d is None and not r["flags"]:
+            fails.append("no 'done' line: channel never closed")
+        if d is not None and d["elapsed_ms"] > limit + SLACK_MS:
+            fails.append("channel closed %d ms after start, limit %d ms (one best-move search of a unit with five stops on a long route)" % (d["elapsed_ms"], limit))
+        if fails:
+            bad += 1
+            chk.violation({"kind": "input", "what": fails[0], "failures": fails, "settings": st,
+                           "input_shape": "one vehicle, about forty single stops, a pickup preceding four deliveries; haversine travel"})
+    chk.ob("the channel closes in time although one best-move search would take far longer (%d runs)" % len(runs), bad == 0)
+    chk.ev.cov["wide_unit_runs"] = len(runs)
 
 
 def scripted_stage(chk, tier, seed):
@@ -132,6 +170,7 @@ def run(tier, seed, replay=None):
     chk.oblig("O_C15")
     scripted_stage(chk, tier, seed)
     single_run_deadline_stage(chk, tier, seed)
+    wide_unit_stage(chk, tier, seed)
     n = 60 if tier == "quick" else 800
     cases = S.make_solve_cases(seed * 31 + 15, n, settings)
     runs, rc, err = S.run_solve(cases, "c15_" + tier, timeout=3000)
